@@ -14,6 +14,17 @@ package execution
 // value invariant established by the octosql constructors: only Boolean values carry Boolean == true
 //@ spec boolOrNull(v Value) bool = (v.TypeID == 0 && !v.Boolean) || v.TypeID == 3
 
+// Ghost-trace helpers for stream contracts (IN/INM: events delivered by the source so far; OUT/OUTM: events passed
+// to this node's produce/metaSend so far).
+//@ spec lastIn() Record = IN[len(IN)-1]
+//@ spec lastOut() Record = OUT[len(OUT)-1]
+//@ spec lastInM() MetadataMessage = INM[len(INM)-1]
+//@ spec lastOutM() MetadataMessage = OUTM[len(OUTM)-1]
+// Two records are the same record: same flag, same event instant, same value slice.
+//@ spec sameRec(a Record, b Record) bool = a.Retraction == b.Retraction && a.EventTime.ns == b.EventTime.ns && a.Values.base == b.Values.base && a.Values.off == b.Values.off && a.Values.len == b.Values.len
+// c is the context `outer.WithRecord(r)`: same Go context, a variable frame holding r's values on top of outer's.
+//@ spec recCtx(c ExecutionContext, outer ExecutionContext, r Record) bool = c.Context == outer.Context && c.VariableContext.Parent == outer.VariableContext && c.VariableContext.Values.base == r.Values.base && c.VariableContext.Values.off == r.Values.off && c.VariableContext.Values.len == r.Values.len
+
 // C11: Kleene AND. FALSE iff some argument is FALSE with no error before it; NULL iff none FALSE and some NULL; TRUE
 // iff all TRUE; an error is the first failing argument's, and only if no FALSE came before it.
 //@ func (*And).Evaluate
